@@ -347,7 +347,9 @@ def run_clause(clause, n_examples, seed, known, rec, max_sigs=6, shrink=True,
                               'flaky under replay: %s' % (state['detail'],)))
                 reported.add(state['target'])
                 continue
-            raise HarnessError('%s: flaky: %s' % (clause.name, e))
+            subs = ''.join(''.join(traceback.format_exception(type(x), x, x.__traceback__))[-1500:]
+                           for x in getattr(e, 'exceptions', []))
+            raise HarnessError('%s: flaky: %s\n%s' % (clause.name, str(e)[-300:], subs))
         except Exception as e:
             # Hypothesis 6.168's shrinker can die inside itself (seen: minimize_duplicated_choices copying a string
             # between two text nodes with different alphabets -> ValueError in intervalsets).  A failing case is
